@@ -281,23 +281,33 @@ def kernel_guards(repo, rep):
                          "index 0 means 'no peak' and ipeak-1 / ipeak+1 leave the array")
     # alpha: tail window with 0 / 1 / many frequencies
     fi = repo.func("wavespectra.core.npstats.alpha")
-    src = ast.unparse(fi.node)
-    tests = [ast.unparse(n.test) for n in ast.walk(fi.node) if isinstance(n, ast.If)]
-    need = {"pos.size == 0": False, "pos.size == 1": False}
-    for t in tests:
-        for k in need:
-            if t.replace(" ", "") == k.replace(" ", ""):
-                need[k] = True
-    pos_names = [k for k, v in need.items() if not v]
-    if pos_names:
-        # accept len(pos) forms
-        alt = {"pos.size == 0": ("len(pos) == 0", "not pos.size", "pos.size < 1"), "pos.size == 1": ("len(pos) == 1", "pos.size < 2")}
-        for k in list(pos_names):
-            if any(a.replace(" ", "") in [t.replace(" ", "") for t in tests] for a in alt[k]):
-                pos_names.remove(k)
-    if pos_names:
+    pos = None
+    for n in ast.walk(fi.node):
+        if isinstance(n, ast.Assign) and isinstance(n.targets[0], ast.Name) and isinstance(n.value, ast.Subscript) and \
+                isinstance(n.value.value, ast.Call) and ast.unparse(n.value.value.func) in ("np.where", "np.nonzero", "numpy.where"):
+            pos = n.targets[0].id
+    if pos is None:
+        raise AnalysisError("npstats.alpha: tail-window index selection (np.where(...)[0]) not found")
+    sizes = set()
+    for n in ast.walk(fi.node):
+        if isinstance(n, ast.If):
+            t = n.test
+            if isinstance(t, ast.Compare) and len(t.ops) == 1:
+                l = ast.unparse(t.left).replace(" ", "")
+                v = repo.const(fi.module, t.comparators[0])
+                if l in (f"{pos}.size", f"len({pos})") and isinstance(v, int):
+                    if isinstance(t.ops[0], ast.Eq):
+                        sizes.add(v)
+                    elif isinstance(t.ops[0], ast.Lt):
+                        sizes |= set(range(0, v))
+                    elif isinstance(t.ops[0], ast.LtE):
+                        sizes |= set(range(0, v + 1))
+            elif isinstance(t, ast.UnaryOp) and isinstance(t.op, ast.Not) and ast.unparse(t.operand).replace(" ", "") in (f"{pos}.size", f"len({pos})"):
+                sizes.add(0)
+    missing = {0, 1} - sizes
+    if missing:
         rep.fail("R-C20-4", fi.file, fi.node.lineno, fi.qualname, "tail-window selection",
-                 f"degenerate tail windows are no longer handled: missing case(s) {pos_names}")
+                 f"degenerate tail windows are no longer handled: no branch for a window holding {sorted(missing)} frequencies")
     else:
         rep.ok("R-C20-4", f"{fi.file}:{fi.node.lineno} alpha", "tail window with 0 / 1 / many frequencies", "both degenerate cases have a branch")
     # npstats.hs: direction width only when more than one direction
